@@ -49,9 +49,13 @@ class BaseFuelBurnModel(ABC):
             specific_ground_range < 1, np.inf, specific_ground_range
         )
         # backwards means last element stays and the rest get adjusted by
-        # addition instead of subtraction
+        # addition instead of subtraction; the segment lengths are reversed
+        # together with the integrand (a scalar length is broadcast first)
+        segment_distance_reversed = np.broadcast_to(
+            segment_distance, (len(mass) - 1,)
+        )[::-1]
         cumulative_integral = cumulative_trapezoid(
-            1 / specific_ground_range_corrected[::-1], dx=segment_distance
+            1 / specific_ground_range_corrected[::-1], dx=segment_distance_reversed
         )[::-1]
         mass[:-1] = mass[-1] + cumulative_integral
         return mass
